@@ -202,6 +202,8 @@ impl Monitor for C03 {
             ("iplevel", tier.pick(1500000, 150000000)),
             ("corpus", tier.pick(400_000, 8_000_000)),
             ("big", tier.pick(40_000, 2_000_000)),
+            ("bytesweep", tier.pick(6_000, 400_000)),
+            ("wordsweep", tier.pick(96, 6_000)),
         ]
     }
 
@@ -210,6 +212,18 @@ impl Monitor for C03 {
             "clean" => {
                 let case = gen::gen_case(rng, &GenOpts::clean());
                 self.whole(rep, &case);
+            }
+            "wordsweep" => {
+                gen::wordsweep(rng, |c| {
+                    self.whole(rep, c);
+                });
+                rep.count("wordsweeps");
+            }
+            "bytesweep" => {
+                for c in gen::bytesweep(rng) {
+                    rep.count("bytesweep_cases");
+                    self.whole(rep, &c);
+                }
             }
             "big" => {
                 // true sizes around 2^16: where 16 bit arithmetic on lengths would wrap
